@@ -1,8 +1,11 @@
 import FimVerif.Drivers.Proto
 import FimVerif.Model.Remove
+import FimVerif.Model.RemoveNames
 import FimVerif.Proofs.Lemmas.C08Ports
 import FimVerif.Proofs.Lemmas.C08Shared
 import FimVerif.Proofs.Lemmas.C08Prune
+import FimVerif.Proofs.Lemmas.C08Ops
+import FimVerif.Proofs.Lemmas.C08Names
 /-!
 Driver for C08.  Request: `[op, nodes, edges, args, h1, h2, lists]` with
 `nodes = [[id, cls, kind], …]` (cls 0..4 = NetworkNode, Component, NetworkService, ConnectionPoint, Link),
@@ -25,6 +28,7 @@ def parseG (jn je : Json) : G :=
   let nodes := match jn with
     | .arr xs => xs.toList.filterMap (fun x => match natsOf x with
         | [i, c, k] => some { id := i, cls := clsOf c, kind := k, props := "" : Elem }
+        | [i, c, k, _, _] => some { id := i, cls := clsOf c, kind := k, props := "" : Elem }
         | _ => none)
     | _ => []
   let edges := match je with
@@ -33,6 +37,13 @@ def parseG (jn je : Json) : G :=
         | _ => none)
     | _ => []
   { nodes := nodes, edges := edges }
+
+/-- names and reservation marks: node entries `[id, cls, kind, name code, marked]` -/
+def parseDir (jn : Json) : Dir :=
+  let rows := match jn with
+    | .arr xs => xs.toList.filterMap (fun x => match natsOf x with | [i, _, _, n, m] => some (i, n, m) | _ => none)
+    | _ => []
+  { names := rows.map (fun r => (r.1, r.2.1)), marked := (rows.filter (fun r => r.2.2 != 0)).map (·.1) }
 
 def ifhOf (j : Json) : List IfH :=
   match j with
@@ -51,7 +62,8 @@ def ofIfH (l : List IfH) : Json :=
 def errName : Err → String
   | .query => "query" | .topology => "topology" | .assertion => "assertion"
 
-def reply (g : G) (r : Except Err (G × List IfH × List IfH)) (s1 s2 : Option Nat) (hyp : Option Bool := none) (hyp2 : Option Bool := none) : Json :=
+def reply (g : G) (r : Except Err (G × List IfH × List IfH)) (s1 s2 : Option Nat) (hyp : Option Bool := none) (hyp2 : Option Bool := none)
+    (wf : Option Bool := none) : Json :=
   match r with
   | .error e => err (errName e)
   | .ok (g', h1, h2) =>
@@ -63,7 +75,8 @@ def reply (g : G) (r : Except Err (G × List IfH × List IfH)) (s1 s2 : Option N
     ok (Json.mkObj [("deleted", ofNats deleted), ("frame", Json.bool frame), ("h1", ofIfH h1), ("h2", ofIfH h2),
                     ("f1", ofNats (fresh s1)), ("f2", ofNats (fresh s2)),
                     ("hyp", match hyp with | some b => Json.bool b | none => Json.null),
-                    ("hyp2", match hyp2 with | some b => Json.bool b | none => Json.null)])
+                    ("hyp2", match hyp2 with | some b => Json.bool b | none => Json.null),
+                    ("wf", match wf with | some b => Json.bool b | none => Json.null)])
 
 def plain (r : Except Err G) : Except Err (G × List IfH × List IfH) := r.map (fun g => (g, [], []))
 
@@ -76,26 +89,57 @@ def handle (j : Json) : Json :=
     let h2 := ifhOf jh2
     let lists := match jl with | .arr xs => xs.toList.map natsOf | _ => []
     match op, args with
-    | "remove_node", [n] => reply g (plain (removeNodeApi g n)) none none (some (SepNodeApi g n && InvCP g && InvPeer g))
-    | "remove_facility", [n] => reply g (plain (removeFacilityApi g n)) none none (some (SepNodeApi g n && InvCP g && InvPeer g))
-    | "remove_switch", [n] => reply g (plain (removeSwitchApi g n)) none none (some (SepNodeApi g n && InvCP g && InvPeer g))
-    | "remove_component", [c] => reply g (plain (removeComponentApi g c)) none none (some (SepCompApi g c && InvCP g && InvPeer g))
-    | "remove_ns", [s] => reply g (plain (removeNsApi g s)) none none (some (SepNsApi g s && InvCP g && InvPeer g))
+    | "remove_node", [n] => reply g (plain (removeNodeApi g n)) none none (some (SepNodeApi g n && InvCP g && InvPeer g)) none
+        (some (WF g && g.cls? n == some .node && g.kind? n != some kFacility))
+    | "remove_facility", [n] => reply g (plain (removeFacilityApi g n)) none none (some (SepNodeApi g n && InvCP g && InvPeer g)) none
+        (some (WF g && g.cls? n == some .node && g.kind? n == some kFacility))
+    | "remove_switch", [n] => reply g (plain (removeSwitchApi g n)) none none (some (SepNodeApi g n && InvCP g && InvPeer g)) none
+        (some (WF g && g.cls? n == some .node && g.kind? n == some kSwitch))
+    | "remove_component", [c] => reply g (plain (removeComponentApi g c)) none none (some (SepCompApi g c && InvCP g && InvPeer g)) none
+        (some (WF g && g.cls? c == some .comp))
+    | "remove_ns", [s] => reply g (plain (removeNsApi g s)) none none (some (SepNsApi g s && InvCP g && InvPeer g)) none
+        (some (WF g && g.cls? s == some .ns))
     | "g_remove_ns", [s] => reply g (plain (removeNs g s)) none none (some (SepNs g [] s && InvCP g))
         (some (SepFamSeq g [s] (g.nbrs s .connects .cp) && sameSet (seqDelA g [s] (g.nbrs s .connects .cp)) ((g.nodes.filter (fun n => !((removeNs g s).toOption.map (fun g2 => g2.has n.id)).getD true)).map (·.id))))
-    | "remove_link", [l] => reply g (plain (removeLinkApi g l)) none none (some (SepSeq g [l] (spEnds g l) && InvPeer g))
+    | "remove_link", [l] => reply g (plain (removeLinkApi g l)) none none (some (SepSeq g [l] (spEnds g l) && InvPeer g)) none
+        (some (WF g && g.cls? l == some .link))
     | "g_remove_link", [l] => reply g (plain (removeLinkG g l)) none none
-    | "disconnect", [s, i] => reply g ((disconnect g h1 i).map (fun r => (r.1, r.2, []))) (some s) none
-    | "unpeer", [a, b] => reply g (unpeer g h1 h2) (some a) (some b)
+    | "disconnect", [s, i] => reply g ((disconnect g h1 i).map (fun r => (r.1, r.2, []))) (some s) none none none
+        (some (WF g && g.cls? i == some .cp && g.cls? s == some .ns && sameSet (hIds h1) (freshIfs g s)))
+    | "unpeer", [a, b] => reply g (unpeer g h1 h2) (some a) (some b) none none
+        (some (WF g && g.cls? a == some .ns && g.cls? b == some .ns && a != b && sameSet (hIds h1) (freshIfs g a) &&
+               sameSet (hIds h2) (freshIfs g b)))
     | "remove_child", [p, c] => reply g ((removeChild g h1 p c).map (fun r => (r.1, r.2, []))) (some p) none
         (some (InvPeer g && isSub g c && g.kind? c != some kDedicatedPort && SepDiscSeq g [] (deepIfs g [c]) && Sep g ((deepIfs g [c]).flatMap (discDel g)) c false))
+        none (some (WF g && g.kind? p == some kDedicatedPort && g.cls? p == some .cp && !isSub g p && (g.nbrs p .connects .cp).contains c &&
+                    sameSet (hIds h1) (freshIfs g p)))
     | "prune", [] =>
       match lists with
-      | [ns, cs, ss, is] => reply g (plain (prune g ns cs ss is)) none none (some (HypPrune g ns cs ss is && InvCP g && InvPeer g))
+      | [ns, cs, ss, is] => reply g (plain (prune g ns cs ss is)) none none (some (HypPrune g ns cs ss is && InvCP g && InvPeer g)) none
+          (some (WF g && decide ns.Nodup && ns.all (fun n => g.cls? n == some .node && g.kind? n != some kFacility) &&
+                 cs.all (fun c => g.cls? c == some .comp) && ss.all (fun s => g.cls? s == some .ns) &&
+                 is.all (fun i => g.cls? i == some .cp && !isSub g i)))
       | _ => err "bad-args"
     | "g_remove_cp", [x, dp] => reply g (plain (removeCp g x (dp != 0))) none none
     | "g_remove_comp", [x] => reply g (plain (removeComp g x)) none none (some (SepComp g [] x && InvCP g))
     | "g_remove_node", [x] => reply g (plain (removeNodeG g x)) none none (some (SepNode g [] x && InvCP g))
+    | "n_remove_node", [nm] => reply g (plain (removeNodeByName g (parseDir jn) nm)) none none none none (some (NamesOK g (parseDir jn) && WF g))
+    | "n_remove_facility", [nm] => reply g (plain (removeFacilityByName g (parseDir jn) nm)) none none none none (some (NamesOK g (parseDir jn) && WF g))
+    | "n_remove_switch", [nm] => reply g (plain (removeSwitchByName g (parseDir jn) nm)) none none none none (some (NamesOK g (parseDir jn) && WF g))
+    | "n_remove_link", [nm] => reply g (plain (removeLinkByName g (parseDir jn) nm)) none none none none (some (NamesOK g (parseDir jn) && WF g))
+    | "n_remove_ns", [nm] => reply g (plain (removeNsByName g (parseDir jn) nm)) none none none none (some (NamesOK g (parseDir jn) && WF g))
+    | "n_node_remove_component", [n, nm] => reply g (plain (nodeRemoveComponent g (parseDir jn) n nm)) none none none none (some (NamesOK g (parseDir jn) && WF g))
+    | "n_node_remove_ns", [n, nm] => reply g (plain (nodeRemoveNs g (parseDir jn) n nm)) none none none none (some (NamesOK g (parseDir jn) && WF g))
+    | "n_remove_child", [p, nm] => reply g ((removeChildByName g (parseDir jn) h1 p nm).map (fun r => (r.1, r.2, []))) (some p) none none none
+        (some (NamesOK g (parseDir jn) && WF g))
+    | "n_prune", [] =>
+      let d := parseDir jn
+      let m := pruneCollect g d
+      -- `collected`: what the collection phase gathered (sorted), for the comparison with the marked elements
+      match reply g (plain (pruneApi g d)) none none none none (some (NamesOK g d && WF g)) with
+      | .arr #[tag, .obj kvs] => .arr #[tag, .obj (kvs.insert "collected"
+          (Json.arr #[ofNats m.nodes, ofNats (m.comps.map (·.1)), ofNats m.nss, ofNats m.ifs]))]
+      | j => j
     | _, _ => err "bad-op"
   | _ => err "bad-request"
 
